@@ -82,6 +82,7 @@ def _snapshot(obj):
     return {repr(k): [_canon_col(c) for c in cols] for k, cols in ch.items()}
 
 
+_SCRIBBLE = False
 _LIST_CTX = None     # the ONE list object of a `list_ctx` history (edited in place between queries), None otherwise
 
 
@@ -103,7 +104,14 @@ def _answer(obj, op, shared_list=False):
             p = obj.p_next(tup(arg))
         else:
             return "n/a"
-        return sorted((repr(k), _num(v)) for k, v in p.items() if _num(v) != 0)
+        ans = sorted((repr(k), _num(v)) for k, v in p.items() if _num(v) != 0)
+        if shared_list is not None and _SCRIBBLE:
+            try:                          # the caller edits the object it was handed (it is the caller's now)
+                for k in list(p):
+                    p[k] = p[k] * 0
+            except Exception:  # noqa
+                pass
+        return ans
     if name == "call":
         if hasattr(obj, "eos"):
             if _LIST_CTX is not None:
@@ -117,8 +125,9 @@ def _answer(obj, op, shared_list=False):
 
 
 def impl(case):
-    global _LIST_CTX
+    global _LIST_CTX, _SCRIBBLE
     _LIST_CTX = [] if case.get("list_ctx") else None
+    _SCRIBBLE = bool(case.get("scribble"))
     kind = case["kind"]
     obj, g = _make(kind, case["cfg"])
     g_snap = common.enc_cfg(g, "Float")
@@ -189,7 +198,9 @@ def make_case(rng, i, tier):
             ops.append([q, p])
     # contexts handed over as ONE Python list that the caller edits in place between queries (append / pop / overwrite)
     list_ctx = rng.random() < 0.2
-    return {"id": i, "kind": kind, "shape": shape + ("+list_ctx" if list_ctx else ""), "cfg": desc, "ops": ops, "list_ctx": list_ctx}
+    scribble = rng.random() < 0.25
+    return {"id": i, "kind": kind, "shape": shape + ("+list_ctx" if list_ctx else "") + ("+scribble" if scribble else ""), "cfg": desc, "ops": ops,
+            "list_ctx": list_ctx, "scribble": scribble}
 
 
 def long_cases():
